@@ -137,18 +137,89 @@ theorem modelled_histories_safe (calls : List Call) (h : Heap)
   rcases this with h | h | h | h | h | h | h | h | h | h | h | h | h | h | h | h | h | h | h | h | h | h <;>
     (rw [h]; decide)
 
-/-! ### the code before the repairs fails the check, and really changes an input -/
-
-/-- `BasisFunctionalData.standardize` as coded before the repair writes through the basis object
-it shares with `self` -/
-theorem coded_standardize_rejected : freshTargets skBasisStandardizeCoded = false := by decide
-
 /-- a concrete heap: `self = [basis, coefficients]`, `basis = [argvals, values]`; after the coded
 `standardize` the fields of the basis object of `self` (cell 1) are no longer what they were -/
 def demoHeap : Heap :=
   { cell := fun r => match r with
       | 0 => ⟨0, [1, 4], []⟩ | 1 => ⟨0, [2, 3], []⟩ | _ => ⟨0, [], []⟩,
     next := 5 }
+
+
+/-! ### views, subsets and objects that share cells -/
+
+/-- No write through a view.  Every reference a checked method writes in place (targets of
+`setFields`, `writeData`, `popKey`) is a cell allocated inside the call: a NumPy view of an input
+(`Stmt.view`, the same buffer) — or any other pre-existing cell — is never a write target.  A
+result that shares memory with an input (`fd[1:3]`, shared argvals, a shared basis) is therefore
+harmless as long as every method passes the check. -/
+theorem no_write_through_views (sk : Skel) (hc : freshTargets sk = true) (e : Env) (h : Heap) :
+    ∀ r ∈ writes sk.body e h, h.next ≤ r :=
+  writes_fresh sk.body [] e h h.next hc (fun _ hv => by simp at hv) (Nat.le_refl _)
+
+example : writes skGetitemView.body (fun _ => 0) demoHeap = [demoHeap.next] := by decide
+
+/-- `fd[i]`, `fd[a:b]` (dense, basis expansion): the values of the result are a view of the input's -/
+theorem method_getitem_view : freshTargets skGetitemView = true := by decide
+/-- the subset really shares the buffer of its parent: field 1 of the result is field 1 of `self` -/
+theorem getitem_view_shares_buffer (e : Env) (h : Heap) :
+    ((exec skGetitemView.body e h).2.cell ((exec skGetitemView.body e h).1 skGetitemView.ret)).fields =
+      [((h.cell (e 0)).fields)[0]?.getD 0, ((h.cell (e 0)).fields)[1]?.getD 0] := by
+  simp [skGetitemView, exec, exec1, upd, hupd, halloc, Stmt.view]
+/-- `fd[idx]` on irregular data, for every index list -/
+theorem method_getitem_irregular (idx : List Nat) : freshTargets (skGetitemIrregular idx) = true := rfl
+/-- `mfd[i]`, `mfd[a:b]` -/
+theorem method_multi_getitem_view : freshTargets skMultiGetitemView = true := by decide
+/-- `transform(data)`: the data argument is only read -/
+theorem method_transform : freshTargets skTransform = true := by decide
+/-- `inverse_transform(scores)`: the caller's score array is only read -/
+theorem method_inverse_transform : freshTargets skInverseTransform = true := by decide
+/-- the in-place rescaling of the scores (seeded change of round 2) is refused, and on a concrete
+heap the caller's array (cell 3 bound to variable 1) is modified -/
+theorem inplace_inverse_transform_rejected :
+    freshTargets skInverseTransformInPlace = false ∧
+    ¬ Same ((exec skInverseTransformInPlace.body (fun v => if v = 1 then 3 else 0) demoHeap).2.cell 3) (demoHeap.cell 3) := by
+  refine ⟨by decide, ?_⟩
+  unfold Same; decide
+
+/-- Subset and parent.  After `sub = parent[a:b]` (a view), ANY history of checked calls — on the
+parent, on the subset, on both in any order, with any other arguments — leaves every cell of
+both unchanged: the shared buffer included. -/
+theorem subset_and_parent_safe (e : Env) (h : Heap) (calls : List Call)
+    (hall : ∀ c ∈ calls, freshTargets c.skel = true) :
+    ∀ r, r < (exec skGetitemView.body e h).2.next →
+      Same ((runCalls calls (exec skGetitemView.body e h).2).cell r) ((exec skGetitemView.body e h).2.cell r) :=
+  fun r hr => sequence calls _ hall r hr
+
+/-- Two objects that share cells (a basis shared by two `BasisFunctionalData`, a subset and its
+parent, the components of two multivariate objects): any interleaving of checked calls on `a` and
+on `b` leaves every existing cell unchanged — no hypothesis on how much they share is needed. -/
+theorem shared_cells_safe (h : Heap) (a b : Nat) (calls : List Call)
+    (hall : ∀ c ∈ calls, freshTargets c.skel = true ∧ (c.args.head? = some a ∨ c.args.head? = some b)) :
+    ∀ r, r < h.next → Same ((runCalls calls h).cell r) (h.cell r) :=
+  sequence calls h fun c hc => (hall c hc).1
+
+/-- two basis-expansion objects (cells 0 and 5) on ONE basis object (cell 1) -/
+def sharedBasisHeap : Heap :=
+  { cell := fun r => match r with
+      | 0 => ⟨0, [1, 4], []⟩ | 1 => ⟨0, [2, 3], []⟩ | 5 => ⟨0, [1, 6], []⟩ | _ => ⟨0, [], []⟩,
+    next := 7 }
+
+example : ∀ r, r < sharedBasisHeap.next →
+    Same ((runCalls [⟨skBasisStandardize, [0]⟩, ⟨skBasisShare, [5]⟩, ⟨skBasisStandardize, [5]⟩, ⟨skBasisToGrid, [0]⟩]
+      sharedBasisHeap).cell r) (sharedBasisHeap.cell r) :=
+  shared_cells_safe sharedBasisHeap 0 5 _ (by decide)
+
+/-- … whereas with the `standardize` coded before the repair the SECOND object sees its basis
+change when the first one is standardised -/
+theorem shared_basis_coded_counterexample :
+    ¬ Same ((runCalls [⟨skBasisStandardizeCoded, [0]⟩] sharedBasisHeap).cell 1) (sharedBasisHeap.cell 1) := by
+  unfold Same; decide
+
+/-! ### the code before the repairs fails the check, and really changes an input -/
+
+/-- `BasisFunctionalData.standardize` as coded before the repair writes through the basis object
+it shares with `self` -/
+theorem coded_standardize_rejected : freshTargets skBasisStandardizeCoded = false := by decide
 
 theorem coded_standardize_counterexample :
     ¬ Same ((exec skBasisStandardizeCoded.body (fun _ => 0) demoHeap).2.cell 1) (demoHeap.cell 1) := by
